@@ -508,8 +508,36 @@ def r07_5(ctx):
     return r
 
 
+def r07_6(ctx):
+    r = Rule("R07.6", "string literals of JSX attributes are never copied verbatim (with their raw JSX source text) into the output",
+             "JSX strings have no escapes: their raw text printed as a JS string literal is a different string or not a program")
+    n_bind = 0
+    for b in ctx.facts.hir:
+        if b.get("mac") or b["crate"] != VISITOR_CRATE:
+            continue
+        idx = None
+        for node in walk(b["body"]):
+            if node.get("k") == "MethodCall" and node["method"] in ("clone", "to_owned") and (node.get("ty") or "") in (AST + "Str", AST + "Lit", AST + "JSXText"):
+                lo = local_of(node["recv"])
+                if not lo:
+                    continue
+                idx = idx or HirIndex(b)
+                bd = idx.binding.get(lo[1])
+                path = (bd or {}).get("path") or ()
+                from_jsx = any(p[0] == "tfield" and (p[1] or "").endswith("JSXAttrValue") and p[2] == "Lit" for p in path)
+                r.saw(b["path"])
+                if from_jsx:
+                    r.ob("%s clones the literal of a JSX attribute value" % b["path"], False, C.mloc(b, node),
+                         "`%s.clone()` keeps the `raw` JSX source text: build a fresh literal from `.value` instead" % lo[0])
+        for node in walk(b["body"]):
+            if node.get("k") in ("PTupleStruct",) and node.get("adt") == AST + "JSXAttrValue" and node.get("variant") == "Lit":
+                n_bind += 1
+    r.ob("JSX attribute literal patterns examined", n_bind > 0, "-", "%d pattern(s) over JSXAttrValue::Lit; no verbatim clone of their literal" % n_bind)
+    return r
+
+
 def rules(ctx):
-    return [r07_1, r07_2, r07_3, r07_4]
+    return [r07_1, r07_2, r07_3, r07_4, r07_6]
 
 
 EXPLANATION = (
